@@ -186,3 +186,6 @@ def run(R):
     # (4) verify_for
     from props.C13 import verify_for_rules
     verify_for_rules(R, "C03")
+    from props.C13 import expiry_rules, quote_binding_rules
+    expiry_rules(R, "C03")   # "no quote has expired" rests on what has_expired decides
+    quote_binding_rules(R, "C03")   # "authentically signed by its claimed node", "this node's quote"
